@@ -414,7 +414,15 @@ def _value_pattern(v):
 
 
 def _arm_pattern(test):
-    """(subject_text, subject_node, pattern) for `isinstance(S, T)`, `S == C`, `S in (C1, C2)`; else None"""
+    """(subject_text, subject_node, pattern) for `isinstance(S, T)`, `S == C`, `S in (C1, C2)`, `S == C1 or S == C2`; else None"""
+    if isinstance(test, ast.BoolOp) and isinstance(test.op, ast.Or):
+        subs = [_arm_pattern(v) for v in test.values]
+        if all(s is not None for s in subs) and len({s[0] for s in subs}) == 1 and len({s[3] for s in subs}) == 1:
+            pats = []
+            for s in subs:
+                pats.extend(s[2].patterns if isinstance(s[2], ast.MatchOr) else [s[2]])
+            return subs[0][0], subs[0][1], ast.MatchOr(pats), subs[0][3]
+        return None
     if isinstance(test, ast.Call) and isinstance(test.func, ast.Name) and test.func.id == "isinstance" and len(test.args) == 2 and not test.keywords:
         p = _class_pattern(test.args[1])
         if p is not None:
@@ -810,5 +818,84 @@ def propagate_copies(fn: ast.AST) -> bool:
     for blk in _blocks(fn):
         blk[:] = [s for s in blk if not (isinstance(s, ast.Assign) and len(s.targets) == 1 and isinstance(s.targets[0], ast.Name)
                                          and isinstance(s.value, ast.Name) and s.value.id == s.targets[0].id)] or [ast.Pass()]
+    ast.fix_missing_locations(fn)
+    return True
+
+
+def tuple_state_split(fn: ast.AST) -> bool:
+    """A local that only ever holds tuple displays of one length k, and is only read as `t[<const>]` or unpacked into k
+    targets (`best = (rmsd, rot)` ... `if r < best[0]` ... `a, b = best`), is split into k locals t__0 .. t__{k-1}."""
+    params = {a.arg for a in ast.walk(fn) if isinstance(a, ast.arg)}
+    defs: dict[str, list] = {}
+    bad = set()
+    for n in ast.walk(fn):
+        if isinstance(n, ast.Assign):
+            for t in n.targets:
+                if isinstance(t, ast.Name):
+                    if isinstance(n.value, ast.Tuple) and len(n.targets) == 1 and not any(isinstance(e, ast.Starred) for e in n.value.elts):
+                        defs.setdefault(t.id, []).append(n)
+                    else:
+                        bad.add(t.id)
+                else:
+                    for x in ast.walk(t):
+                        if isinstance(x, ast.Name) and isinstance(x.ctx, ast.Store):
+                            bad.add(x.id)
+        elif isinstance(n, (ast.AugAssign, ast.AnnAssign, ast.NamedExpr)) and isinstance(n.target, ast.Name):
+            bad.add(n.target.id)
+        elif isinstance(n, (ast.For, ast.comprehension)):
+            for x in ast.walk(n.target):
+                if isinstance(x, ast.Name):
+                    bad.add(x.id)
+        elif isinstance(n, (ast.With,)):
+            for it in n.items:
+                if it.optional_vars is not None:
+                    for x in ast.walk(it.optional_vars):
+                        if isinstance(x, ast.Name):
+                            bad.add(x.id)
+    cands = {}
+    for nm, ds in defs.items():
+        if nm in bad or nm in params:
+            continue
+        ks = {len(d.value.elts) for d in ds}
+        if len(ks) == 1 and 2 <= next(iter(ks)) <= 4:
+            cands[nm] = next(iter(ks))
+    if not cands:
+        return False
+    # every load must be t[const] or the whole RHS of an unpack into k names
+    parent = {}
+    for p in ast.walk(fn):
+        for c in ast.iter_child_nodes(p):
+            parent[id(c)] = p
+    for n in ast.walk(fn):
+        if isinstance(n, ast.Name) and n.id in cands and isinstance(n.ctx, ast.Load):
+            p = parent.get(id(n))
+            ok = False
+            if isinstance(p, ast.Subscript) and p.value is n and isinstance(p.slice, ast.Constant) and isinstance(p.slice.value, int) and 0 <= p.slice.value < cands[n.id] and isinstance(p.ctx, ast.Load):
+                ok = True
+            if isinstance(p, ast.Assign) and p.value is n and len(p.targets) == 1 and isinstance(p.targets[0], ast.Tuple) and len(p.targets[0].elts) == cands[n.id]:
+                ok = True
+            if not ok:
+                cands.pop(n.id, None)
+    if not cands:
+        return False
+
+    class T(ast.NodeTransformer):
+        def visit_Subscript(self, n):
+            self.generic_visit(n)
+            if isinstance(n.value, ast.Name) and n.value.id in cands and isinstance(n.slice, ast.Constant):
+                return ast.copy_location(ast.Name(f"{n.value.id}__{n.slice.value}", ast.Load()), n)
+            return n
+
+        def visit_Assign(self, s):
+            self.generic_visit(s)
+            if len(s.targets) == 1 and isinstance(s.targets[0], ast.Name) and s.targets[0].id in cands and isinstance(s.value, ast.Tuple):
+                g = s.targets[0].id
+                return [ast.copy_location(ast.Assign([ast.Name(f"{g}__{i}", ast.Store())], e), s) for i, e in enumerate(s.value.elts)]
+            if isinstance(s.value, ast.Name) and s.value.id in cands and len(s.targets) == 1 and isinstance(s.targets[0], ast.Tuple):
+                g = s.value.id
+                return [ast.copy_location(ast.Assign([t], ast.Name(f"{g}__{i}", ast.Load())), s) for i, t in enumerate(s.targets[0].elts)]
+            return s
+
+    T().visit(fn)
     ast.fix_missing_locations(fn)
     return True
